@@ -167,6 +167,7 @@ def run(model, col, tier):
     col.check(all(isinstance(n.value, ast.List) for n in ast.walk(cinit) if isinstance(n, ast.Assign) and isinstance(n.targets[0], ast.Attribute) and n.targets[0].attr in ("astPasses", "irPasses")),
               "R18.2", f"{COMPILER}::Compiler.__init__ builds the pass lists per instance", "astPasses/irPasses are list displays evaluated in __init__", None, COMPILER, cinit)
     col.check(not any(k in ("astPasses", "irPasses", "parser") for k in pipe.cls.class_attrs), "R18.2", f"{COMPILER}::Compiler has no class-level passes", "no pass list at class level", "pass objects are shared between Compiler instances", COMPILER, pipe.cls.node)
+    pipe.check_pass_freshness(col, "R18.2")
     npass = 0
     for rel, fi in sorted(model.files.items()):
         if not rel.startswith("nsl/passes/") or "GetPass" not in fi.functions:
